@@ -1992,3 +1992,14 @@ def sp_match_pos(ex, st, args, kwargs, node):
     if f is None:
         raise SpecError("match_pos() without a reindex(index=...)")
     return f(to_z3(st.get(args[0])))
+
+
+@builtin("numpy.fromiter")
+def np_fromiter(ex, st, args, kwargs, node):
+    """np.fromiter(iterable, dtype, count): the array of the iterable's items (count must be its length)"""
+    n, elem = ex.iter_desc(args[0], st)
+    if len(args) >= 3:
+        cnt = st.get(args[2])
+        line = getattr(node, "lineno", None)
+        ex.oblig("len_eq", "L%s" % line, st, to_z3(cnt) == to_z3(n), line=line)
+    return st.alloc(Vec(n, lambda k: elem(k), kind="array"))
